@@ -11,6 +11,7 @@ CFG = {
         'bmtree.AllPaths/index/debug': 'bmtree.PathToIndex of every word of bmtree.AllPaths (-tags debug build)',
         'bmtree.Decode/reencode/debug': 'Decode, PathToIndex, bitmap.Of (-tags debug build)',
         'bmtree.Decode/roundtrip/debug': 'Decode(T, Of(PathToIndex ...)) (-tags debug build)',
+        'bmtree.Session': 'bmtree.AllPaths / bmtree.Decode calls executed in order in one process',
         'bmtree.AllPaths/subtree': 'bmtree.AllPaths(T, NewPath(q), NewPath(right-most leaf below q) + 1)',
         'bmtree.PathsOf/decode': 'bmtree.PathsOf(keys, dedup) -> PathToIndex -> bitmap.Of -> bmtree.Decode',
         'bmtree.PathsOf/decode/debug': 'the same in the -tags debug build',
@@ -18,7 +19,7 @@ CFG = {
  # two harness builds; the operations that reach PathToIndex (Decode, Decode/roundtrip, Decode/reencode, AllPaths/index) also run in
  # the -tags debug build (github.com/openacid/must active): a contract panic is observed as P and rejected by the specification
  'runs': [{'tags': 'verif'}, {'tags': 'verif debug'}],
- 'rule': 'held variants first (two calls, then both results are read; heights 0..9 ascending). AllPaths: every level mask T < 2^4 (thorough 2^6) x every (from,to) drawn from {every stored path word, +1, -1, 0, 2^64-1} '
+ 'rule': 'sessions early in the run (calls on S and S<<k, every partial S < 2^7, k 1..4, one process); one Decode call on height 16 (sparse bitmap; the slowest case, re-run by ./check under GOMAXPROCS 3/33/97); held variants first (two calls, then both results are read; heights 0..9 ascending). AllPaths: every level mask T < 2^4 (thorough 2^6) x every (from,to) drawn from {every stored path word, +1, -1, 0, 2^64-1} '
          '(quick: T in [2^4,2^6) with every candidate as from / as to / as both plus 4 random partners); random heights 0..30 '
          '(30 forced in 1/8) with full / leaf-only / sparse / dense / full-minus-one / leaf-plus-one / random masks and windows of at '
          'most 2^12 search values placed at 0, at the end, around search values with many trailing zeros, at 2^k and 2^k-1; from/to = '
@@ -31,7 +32,7 @@ CFG = {
          'some but not all stored nodes; distinct = distinct shape key (op, mask kind, height bucket, class of from and of to '
          '(0 / max / word / word+1 / word-1 / off / beyond), bitmap length short/exact/long, bits beyond T, size bucket)',
  'assumptions': ['1 <= bitmapSize < 2^31 (int32, height <= 30)', '0 <= from, to < 2^64',
-                 'the correspondence only runs windows of <= 2^13 search values and Decode on heights <= 14 (the output is 2^h words otherwise); both sides refuse anything larger',
+                 'the correspondence only runs windows of <= 2^13 search values and Decode on heights <= 17 (the output is 2^h words otherwise); both sides refuse anything larger',
                  'Decode/roundtrip: S is a sub-list of the stored nodes in pre-order',
                  'PathsOf/decode: keys in Go string order sharing their first from bits, every path length a stored level of T'],
  'trusted': ['checker for AllPaths on heights > 10 is the pruned enumeration win_nodes (Spec/AllPathsSpec.v); it is PROVED equal to the '
